@@ -75,13 +75,14 @@ def shrink(exe_cmd, case, still_fails, budget=120):
     return ' '.join(toks)
 
 
-def minimise_sequence(exe_cmd, prefix, line, icanon=None, budget=60):
+def minimise_sequence(exe_cmd, prefix, line, icanon=None, budget=60, differs=None):
     """shortest found sub-sequence of `prefix` after which `line` answers differently than in a fresh process (None if the
-    difference does not reproduce)"""
+    difference does not reproduce).  `differs(out)`, when given, replaces the comparison with the answer of a fresh process."""
     def out_after(seq):
         o = core.run_lines(exe_cmd, list(seq) + [line], timeout=600)
         r = o[len(seq)] if len(o) > len(seq) else 'err no-output'
-        return canon(icanon(r, line) if icanon else r)
+        r = canon(icanon(r, line) if icanon else r)
+        return ('bad' if differs(r) else 'good') if differs else r
     alone = out_after([])
     if out_after(prefix) == alone: return None
     t0 = time.time(); seq = list(prefix); chunk = max(1, len(seq) // 2)
@@ -221,6 +222,21 @@ def decide(spec, group, tier, seed, replay=None):
                         if k: known_hits.append((k, c.line))
                         else: orc_fails.append((i, why))
 
+            # ---- 2a. failures that depend on what the process did before ------------------------------
+            # an oracle line that fails in the run but passes on its own in a fresh process fails because of state left by earlier
+            # lines: the replay needs the (minimised) preceding sequence
+            if not replay:
+                for i, why in orc_fails[:3]:
+                    c = cases[i]
+                    if i >= len(lines): continue
+                    chk = c.check or all_zero
+                    alone = core.run_lines(hcmd, [c.line])[0]
+                    if spec.get('impl_canon'): alone = spec['impl_canon'](alone, c.line)
+                    if not chk(core.parse_vals(alone), alone):
+                        seq = minimise_sequence(hcmd, lines[:i], c.line, spec.get('impl_canon'))
+                        if seq is not None:
+                            order_fails.append({'line': c.line, 'alone': alone, 'after_sequence': impl_out.get(i, ''), 'sequence': seq})
+
             # ---- 2b. order independence ------------------------------------------------------------
             # every line is self-contained: what the process did before must not change its answer (function-local statics,
             # memo tables, caches keyed too coarsely, state initialised by the first request).  The lines run a second time in
@@ -285,13 +301,29 @@ def decide(spec, group, tier, seed, replay=None):
                     notes.append('shrink failed: %r' % e)
 
     # ---- replay of recorded order dependences ---------------------------------------------------
-    if replay and rj.get('order_dependence'):
+    if replay:
+        for od in rj.get('order_dependence', []):
+            if 'extra' not in od: continue
+            xg = spec.get('extra', [])[od['extra']][0] if od['extra'] < len(spec.get('extra', [])) else None
+            if xg is None: continue
+            with core.Scratch() as scr:
+                exe, err, t_h = core.build_harness(scr, xg['name'], xg['sources'], xg.get('repo_sources', ()), xg.get('flags', ()),
+                                                   xg.get('libs', ('-lgmpxx', '-lgmp')), sanitize=xg.get('sanitize', True))
+                if exe is None: continue
+                o = core.run_lines([exe], list(od['sequence']) + [od['line']]); r = o[len(od['sequence'])] if len(o) > len(od['sequence']) else 'err no-output'
+                c0 = next((c for c in cases if c.line == od['line']), None)
+                chk = (c0.check if c0 is not None and c0.check else all_zero)
+                why = chk(core.parse_vals(r), r)
+                if why:
+                    cases.append(Case(od['line'], 'orc', 'sequence', chk)); impl_out[len(cases) - 1] = r
+                    orc_fails.append((len(cases) - 1, 'after the recorded sequence of %d line(s): %s' % (len(od['sequence']), why)))
+    if replay and [od for od in rj.get('order_dependence', []) if 'extra' not in od]:
         with core.Scratch() as scr:
             exe, err, t_h = core.build_harness(scr, group['name'], group['sources'], group.get('repo_sources', ()),
                                                group.get('flags', ()), group.get('libs', ('-lgmpxx', '-lgmp')))
             if exe is not None:
                 icanon = spec.get('impl_canon')
-                for od in rj['order_dependence']:
+                for od in [x for x in rj['order_dependence'] if 'extra' not in x]:
                     def out_after(seq, line=od['line']):
                         o = core.run_lines([exe], list(seq) + [line]); r = o[len(seq)] if len(o) > len(seq) else 'err no-output'
                         return canon(icanon(r, line) if icanon else r)
@@ -301,7 +333,7 @@ def decide(spec, group, tier, seed, replay=None):
                         orc_fails.append((len(cases) - 1, 'the answer depends on what the process did before: alone %s, after the recorded sequence %s' % (a[:120], b[:120])))
 
     # ---- 3b. implementation-only oracles that live in another harness group ---------------------
-    for xgroup, xgen in spec.get('extra', []):
+    for xgroups_index, (xgroup, xgen) in enumerate(spec.get('extra', [])):
         with core.Scratch() as scr:
             exe, err, t_h = core.build_harness(scr, xgroup['name'], xgroup['sources'], xgroup.get('repo_sources', ()),
                                                xgroup.get('flags', ()), xgroup.get('libs', ('-lgmpxx', '-lgmp')), sanitize=xgroup.get('sanitize', True))
@@ -309,15 +341,24 @@ def decide(spec, group, tier, seed, replay=None):
                 broken.append('harness %s does not compile against the working tree: %s' % (xgroup['name'], (err or '')[-1200:]))
                 continue
             xcases = xgen(core.Gen(seed + 17), tier) if not replay else [c for c in cases if c.line.startswith(xgroup.get('replay_prefix', 'mp.'))]
-            xo = core.run_lines([exe], [c.line for c in xcases])
-            for c, o in zip(xcases, xo):
+            xlines = [c.line for c in xcases]
+            xo = core.run_lines([exe], xlines)
+            for xi, (c, o) in enumerate(zip(xcases, xo)):
                 if not replay:
                     cases.append(c); impl_out[len(cases) - 1] = o
-                why = (c.check or all_zero)(core.parse_vals(o), o)
+                chk = c.check or all_zero
+                why = chk(core.parse_vals(o), o)
                 if why:
                     k = known_match(known, pid, c.line)
-                    if k: known_hits.append((k, c.line))
-                    else: orc_fails.append((cases.index(c), why))
+                    if k: known_hits.append((k, c.line)); continue
+                    orc_fails.append((cases.index(c), why))
+                    # does the line fail on its own, or only after what this process did before?  (then the replay needs the sequence)
+                    if not replay and len([1 for od in order_fails if od.get('group') == xgroup['name']]) < 2:
+                        alone = core.run_lines([exe], [c.line])[0]
+                        if not chk(core.parse_vals(alone), alone):
+                            seq = minimise_sequence([exe], xlines[:xi], c.line, differs=lambda r, chk=chk: bool(chk(core.parse_vals(r), r)))
+                            if seq is not None:
+                                order_fails.append({'group': xgroup['name'], 'extra': xgroups_index, 'line': c.line, 'alone': alone, 'after_sequence': o, 'sequence': seq})
 
     # ---- 4. verdict ----------------------------------------------------------------------------
     for k, line in known_hits[:0]: pass
